@@ -323,7 +323,17 @@ func (g *Gen) resetCheck(o *Occ) {
 	w("_, _ = tf, p")
 	for _, s := range o.Slots {
 		if s.Oneof != nil {
-			continue // the oneof holder is decided by the whole group (C07)
+			// the oneof holder is decided by the whole group (C07); what C05 states for one branch: a null or
+			// unknown branch attribute never makes its branch the held one
+			if s.Kind != SCustom {
+				vt := "types.Object"
+				if s.Kind == SScalar {
+					vt = g.tfv(s.Leaf.TFVal)
+				}
+				w(`{ v, _ := tf.Attrs[%q].(%s); if v.Null || v.Unknown { _, held := p.%s.(*%s%s); vrt.Assert("C05/"+path+"/%s:null-or-unknown-branch-not-held", !held) } }`,
+					s.Attr, vt, s.Oneof.GoName, g.TQ, s.Wrapper, s.Attr)
+			}
+			continue
 		}
 		n := s.Attr
 		x := "p" + s.Access
@@ -369,6 +379,10 @@ func (g *Gen) resetCheck(o *Occ) {
 			} else if s.EmbedPtr == "" {
 				g.allZero(s.Sub)
 				w(`{ v, _ := tf.Attrs[%q].(types.Object); if v.Null || v.Unknown { vrt.Assert("C05/"+path+"/%s:reset", allZero_%s(&%s)) } else { resetCheck_%s(v, &%s, path+"/%s") } }`, n, n, s.Sub.ID, x, s.Sub.ID, x, n)
+			} else {
+				// held by value inside a nullable embedded message: zero (or the embedded message is nil altogether)
+				g.allZero(s.Sub)
+				w(`{ v, _ := tf.Attrs[%q].(types.Object); if v.Null || v.Unknown { vrt.Assert("C05/"+path+"/%s:reset", %sallZero_%s(&%s)) } else if %strue { resetCheck_%s(v, &%s, path+"/%s") } }`, n, n, embOr, s.Sub.ID, x, embAnd, s.Sub.ID, x, n)
 			}
 		}
 	}
@@ -651,6 +665,23 @@ func (g *Gen) follows(o *Occ) {
 		embAnd := ""
 		if s.EmbedPtr != "" {
 			embAnd = "b" + s.EmbedPtr + " != nil && "
+			// a nullable embedded message is flattened: when it is nil in the new source its attributes
+			// follow it (null; a message held by value stays a non-null object), whatever the earlier state was
+			switch {
+			case s.Kind == SScalar:
+				w(`if b%s == nil { v, _ := tf.Attrs[%q].(%s); vrt.Assert("C09/"+%s+":null-when-embedded-message-nil", v.Null && !v.Unknown) } else {`, s.EmbedPtr, n, g.tfv(s.Leaf.TFVal), lab)
+			case s.Kind == SList || s.Kind == SMsgList:
+				// (C09 states the length of a list, not its null-ness: an emptied list may stay a non-null empty list)
+				w(`if b%s == nil { v, _ := tf.Attrs[%q].(types.List); vrt.Assert("C09/"+%s+":empty-when-embedded-message-nil", len(v.Elems) == 0 && !v.Unknown) } else {`, s.EmbedPtr, n, lab)
+			case s.Kind == SMap || s.Kind == SMsgMap:
+				w(`if b%s == nil { v, _ := tf.Attrs[%q].(types.Map); vrt.Assert("C09/"+%s+":empty-when-embedded-message-nil", len(v.Elems) == 0 && !v.Unknown) } else {`, s.EmbedPtr, n, lab)
+			case s.Kind == SMsg && s.SubPtr:
+				w(`if b%s == nil { v, _ := tf.Attrs[%q].(types.Object); vrt.Assert("C09/"+%s+":null-when-embedded-message-nil", v.Null && !v.Unknown) } else {`, s.EmbedPtr, n, lab)
+			case s.Kind == SMsg:
+				w(`if b%s == nil { v, _ := tf.Attrs[%q].(types.Object); vrt.Assert("C09/"+%s+":by-value-message-never-null", !v.Null && !v.Unknown) } else {`, s.EmbedPtr, n, lab)
+			default:
+				w(`if b%s != nil {`, s.EmbedPtr)
+			}
 		}
 		switch s.Kind {
 		case SScalar:
@@ -665,9 +696,6 @@ func (g *Gen) follows(o *Occ) {
 				w(`  if %s!o1.Null { vrt.Assert("C09/"+%s+":value", %s) } }`, embAnd, lab, tfLeafEq(s.Leaf, "v.Value", toTF(s.Leaf, x)))
 			}
 		case SList, SMsgList:
-			if s.EmbedPtr != "" {
-				continue
-			}
 			w(`{ c, ok := tf.Attrs[%q].(types.List); vrt.Assert("C09/"+%s+":type", ok); vrt.Assert("C09/"+%s+":known", !c.Unknown)`, n, lab, lab)
 			w(`  vrt.Assert("C09/"+%s+":len", len(c.Elems) == len(%s))`, lab, x)
 			w(`  for i := range %s { if i < len(c.Elems) {`, x)
@@ -680,9 +708,6 @@ func (g *Gen) follows(o *Occ) {
 			}
 			w(`  } } }`)
 		case SMap, SMsgMap:
-			if s.EmbedPtr != "" {
-				continue
-			}
 			w(`{ c, ok := tf.Attrs[%q].(types.Map); vrt.Assert("C09/"+%s+":type", ok); vrt.Assert("C09/"+%s+":known", !c.Unknown)`, n, lab, lab)
 			w(`  vrt.Assert("C09/"+%s+":keyset-size", len(c.Elems) == len(%s))`, lab, x)
 			w(`  for k, sv := range %s { ev, ok := c.Elems[k]; _ = sv; vrt.Assert("C09/"+%s+":has-source-key", ok); if ok {`, x, lab)
@@ -695,15 +720,15 @@ func (g *Gen) follows(o *Occ) {
 			}
 			w(`  } } }`)
 		case SMsg:
-			if s.EmbedPtr != "" {
-				continue
-			}
 			w(`{ v, ok := tf.Attrs[%q].(types.Object); o1, _ := s1.Attrs[%q].(types.Object); vrt.Assert("C09/"+%s+":type", ok); vrt.Assert("C09/"+%s+":known", !v.Unknown)`, n, n, lab, lab)
 			if s.SubPtr {
 				w(`  if %s == nil { vrt.Assert("C09/"+%s+":nil-source-null", v.Null) } else if !v.Null { if o1.Null { o1 = v }; follows_%s(o1, v, %s, %s) } }`, x, lab, s.Sub.ID, x, lab)
 			} else {
 				w(`  if !v.Null { if o1.Null { o1 = v }; follows_%s(o1, v, &%s, %s) } }`, s.Sub.ID, x, lab)
 			}
+		}
+		if s.EmbedPtr != "" {
+			w("}")
 		}
 	}
 	g.p("func follows_%s(s1, tf types.Object, b *%s%s, path string) {\n%s}\n", o.ID, g.TQ, o.MsgName, b.String())
